@@ -33,8 +33,36 @@ func runC01(c *Ctx, pr *PropertyRun) {
 	c01Dispatch(c, pr, "C01")
 	c01Adapter(c, pr, "C01")
 	serveErrorTable(c, pr, "C01")
+	// GET and HEAD of a stored file are answered through http.ServeContent:
+	// the fallback for file systems whose files cannot seek copies the bytes
+	// without sniffing the content type, so HEAD and GET (and empty and
+	// non-empty files) would announce different entity headers
+	{
+		sc := NewRule("C01", "C01.get-head-serve-content", "every fault-free GET or HEAD of a file stored by LocalFileSystem that is answered 200 is served by http.ServeContent (what LocalFileSystem.Open returns can seek) — explored through the whole file server (E2)")
+		sc.Exhaustive = true
+		pr.Rules = append(pr.Rules, sc)
+		seen := map[string]bool{}
+		for _, run := range exploreFileServer(c, sc) {
+			if (run.Method != "GET" && run.Method != "HEAD") || run.Status != "200" || run.firstFault() != nil {
+				continue
+			}
+			sc.Role("served-file")
+			sc.Ob(run.Served)
+			if !run.Served && !seen[run.Method] {
+				seen[run.Method] = true
+				sc.Violation("not-serve-content|"+run.Method, "-", fmt.Sprintf("%s of a stored file is answered 200 without http.ServeContent: what LocalFileSystem.Open returns no longer implements io.ReadSeeker, so the handler falls back to copying the bytes — no content-type sniffing, no ranges; HEAD and GET announce different entity headers. Trace: %s", run.Method, run.describe()), nil)
+			}
+		}
+		sc.RequireRole("served-file")
+	}
 	// PROPFIND reports what is stored: each listed resource gets its own property table
 	freshPropTableRule(c, pr, "C01")
+	// ... under the href by which it can be addressed again (shared with C03.hrefs)
+	if san := c.P.Func(pkgWebdav, "(LocalFileSystem).localPath"); san != nil {
+		hrefs := NewRule("C01", "C01.hrefs", "every FileInfo.Path is \"/\"+ToSlash(Rel(root, p)) of a Walk path, or the request name itself (E2 + backward derivation)")
+		pr.Rules = append(pr.Rules, hrefs)
+		c03Hrefs(c, hrefs, &sanitiser{c: c, san: san, memo: map[string]bool{}})
+	}
 	// every name that denotes a resource is accepted (and only those): the
 	// sanitiser's table, shared with C03.sanitiser-shape
 	acc := NewRule("C01", "C01.path-acceptance", "decision table of localPath: success exactly for NUL-free names whose path.Clean form is absolute — no other name is refused (E2, shared with C03)")
